@@ -4,14 +4,16 @@
 //
 // Extracted (every shape that is not exactly the expected one is an error — the
 // extractor never guesses):
-//   table.go   triangulation (256 rows), cornerIndexAFromEdge, cornerIndexBFromEdge
-//   canvas.go  marchingSectionSize; inside marchFloat1BlockPosition:
-//              cubeDataIndexIncrements  (corner offsets used for the sample lookup)
-//              cubeCornerPositions      (corner offsets used for the vertex positions)
-//              cubeDataBlockPositions   (per corner: which of x/y/zBlockPosition it uses)
-//              lookupIndex |= m  under  if cubeCornersExistence[i]   -> (i, m) pairs
-//              newIndex.X/Y/Z = k under  if pos.X/Y/Z != blockPosition.X/Y/Z -> k per axis
-//              the terminator constant of the triangle loop (triangulation[..][i] != -1) and its stride
+//
+//	table.go   triangulation (256 rows), cornerIndexAFromEdge, cornerIndexBFromEdge
+//	canvas.go  marchingSectionSize; inside marchFloat1BlockPosition:
+//	           cubeDataIndexIncrements  (corner offsets used for the sample lookup)
+//	           cubeCornerPositions      (corner offsets used for the vertex positions)
+//	           cubeDataBlockPositions   (per corner: which of x/y/zBlockPosition it uses)
+//	           cubeCornersExistence[i] = cubeCorners[i] < cutoff       -> list of i (any other test: error)
+//	           lookupIndex |= m  under  if cubeCornersExistence[i]   -> (i, m) pairs
+//	           newIndex.X/Y/Z = k under  if pos.X/Y/Z != blockPosition.X/Y/Z -> k per axis
+//	           the terminator constant of the triangle loop (triangulation[..][i] != -1) and its stride
 package main
 
 import (
@@ -195,6 +197,7 @@ func c09Tables(repo, out string, args []string) error {
 	}
 	var increments, cornerPos, blockSel [][]int
 	lookupBits := [][]int{}
+	insideTests := []int{}
 	neighbourIdx := map[string]int{}
 	terminator, stride := 0, 0
 	haveTerm := false
@@ -312,6 +315,27 @@ func c09Tables(repo, out string, args []string) error {
 						}
 					}
 					blockSel = append(blockSel, row)
+				}
+			case "":
+				// cubeCornersExistence[i] = cubeCorners[i] < cutoff
+				if ix, ok := s.Lhs[0].(*ast.IndexExpr); ok && c09Ident(ix.X) == "cubeCornersExistence" {
+					i, err := c09Int(ix.Index)
+					be, ok2 := s.Rhs[0].(*ast.BinaryExpr)
+					if err != nil || !ok2 {
+						fail("cubeCornersExistence[..]: unexpected assignment shape")
+						return false
+					}
+					rx, ok3 := be.X.(*ast.IndexExpr)
+					if !ok3 || c09Ident(rx.X) != "cubeCorners" || c09Ident(be.Y) != "cutoff" || be.Op != token.LSS {
+						fail("cubeCornersExistence[%d]: expected `cubeCorners[%d] < cutoff` (inside = below the cutoff), found another test", i, i)
+						return false
+					}
+					j, err := c09Int(rx.Index)
+					if err != nil || j != i {
+						fail("cubeCornersExistence[%d] tests cubeCorners[%d]", i, j)
+						return false
+					}
+					insideTests = append(insideTests, i)
 				}
 			case "newIndex.X", "newIndex.Y", "newIndex.Z":
 				if s.Tok == token.ASSIGN {
@@ -433,6 +457,7 @@ func c09Tables(repo, out string, args []string) error {
 	rows("lookupBits", "`if cubeCornersExistence[i] { lookupIndex |= m }` as [i, m]", lookupBits, "Int")
 	fmt.Fprintf(&b, "/-- `newIndex.X/Y/Z = k` when the corner lives in the neighbouring block -/\ndef neighbourIndex : List Int := %s\n",
 		leanIntList([]int{neighbourIdx["newIndex.X"], neighbourIdx["newIndex.Y"], neighbourIdx["newIndex.Z"]}))
+	fmt.Fprintf(&b, "/-- corners `i` for which the code has `cubeCornersExistence[i] = cubeCorners[i] < cutoff` (any other test is an extraction error) -/\ndef insideTests : List Nat := %s\n", leanIntList(insideTests))
 	fmt.Fprintf(&b, "def marchingSectionSize : Int := %d\n", sectionSize)
 	fmt.Fprintf(&b, "/-- triangle loop: `for i := 0; triangulation[c][i] != terminator; i += stride` -/\ndef loopTerminator : Int := %d\ndef loopStride : Nat := %d\n", terminator, stride)
 	b.WriteString("\nend PolyVerif.Gen.March\n")
